@@ -2,7 +2,7 @@
 import importlib, time
 from ..contract import REGISTRY, Verdict
 
-CONTRACT_MODULES = ['operation', 'mps', 'mpo']
+CONTRACT_MODULES = ['operation', 'mps', 'mpo', 'arith']
 
 def load_contracts():
     for m in CONTRACT_MODULES:
